@@ -53,7 +53,7 @@ for n, t in (("0", "quick"), ("1", "quick"), ("6", "quick")):
 ENC = ("tonic/src/codec/encode.rs", "tonic/codec_encode.rs")
 for (p_, k, l_, m_, t, cap) in ((0, 1, 1, 63, "quick", 900), (3, 1, 2, 63, "quick", 900), (0, 2, 1, 63, "quick", 1500),
                               (6, 2, 2, 63, "thorough", 3600), (5, 2, 0, 63, "thorough", 3600), (0, 1, 1, 31, "thorough", 3600)):
-    H("enc_step_p%d_k%d_l%d_m%d" % (p_, k, l_, m_), ["C01", "C06", "C03", "C02"], "core_vb", *ENC, tier=t, cap_s=cap, mem_gb=16,
+    H("enc_step_p%d_k%d_l%d_m%d" % (p_, k, l_, m_), ["C01", "C06", "C03", "C02"], "core_vb", *ENC, tier=t, cap_s=cap, mem_gb=20,
       obligation="E2/L3/W2: one poll of EncodedBytes::poll_next from an arbitrary state equals the reference batching model: outcome "
                  "(Pending/End/chunk/error code), chunk length = old buffer + reference frames of the messages taken%s; Pending only "
                  "when nothing is buffered; an encode failure (over limit / encoder error) or source error is handed out after the frames "
@@ -221,6 +221,45 @@ H("ty_retry_info_any_roundtrip", ["C20"], "types", *TY, cap_s=1800, tier="quick"
   obligation="Y2 (RetryInfo): detail -> Any (prost encode) -> detail (prost decode) is the identity inside the protobuf range",
   functions=["RetryInfo::into_any", "RetryInfo::from_any_ref", "prost::Message::{encode_to_vec,decode}"],
   bounds="all delays with seconds <= 315576000000, nanos < 1e9")
+
+IC = ("tonic/src/service/interceptor.rs", "tonic/interceptor.rs")
+for nm, b in (("ic_no_headers", "empty header map"), ("ic_reserved_header", "one reserved header (te: trailers)"),
+              ("ic_insert_metadata", "one reserved header; the interceptor inserts one metadata entry on accept")):
+    H(nm, ["C12"], "core", *IC, cap_s=1200, stubs=[HTTPH],
+      obligation="InterceptedService::call + ResponseFuture::poll: accept => wrapped service called exactly once with the same method, "
+                 "version, URI, body, headers (reserved name included) plus the interceptor's change; reject => wrapped service never "
+                 "called and the caller gets HTTP 200 + content-type application/grpc + grpc-status = the interceptor's code",
+      functions=["InterceptedService::call", "interceptor::ResponseFuture::poll", "Request::{from_http,into_parts,from_parts,into_http}",
+                 "Status::into_http"],
+      bounds="method: 6 standard methods (symbolic), version: 5 (symbolic), accept/reject symbolic, reject code 1..=16 symbolic, body: any u32; " + b,
+      outside=["extensions, header maps with more than 2 entries, custom (non-standard) header names on this path"])
+
+for n, t, cap in ((0, "quick", 900), (5, "quick", 900), (6, "quick", 1200)):
+    H("pn_glue_%d" % n, ["C07"], "core", *DEC, tier=t, cap_s=cap, unwindset=UW_MAPS + [("Streaming<", 6)],
+      stubs=["StreamingInner::poll_frame replaced by a 3-event scripted stub (Pending / Ok(None) / Ok(Some) / Err) in this harness only; "
+             "its own behaviour is decided by pf_eof_*"],
+      obligation="T1b: Streaming::poll_next glue: any Err coming out of decode_chunk (real) or poll_frame (scripted) is yielded once and "
+                 "leaves the stream terminal (State::Error(None)); a terminal stream returns None without polling the body or touching "
+                 "the buffer; a yielded message is a complete legal frame of the buffered input",
+      functions=["tonic::codec::decode::Streaming::poll_next", "Streaming::decode_chunk", "StreamingInner::decode_chunk",
+                 "StreamingInner::fail", "StreamingInner::response"],
+      bounds="%d symbolic buffered bytes, any limit, 3 scripted poll_frame outcomes, start state ReadHeader or Error(None)" % n)
+
+RQ = ("tonic/src/request.rs", "tonic/request.rs")
+RQ_REWRITE = [("tonic/src/request.rs", 'Some(format!("{}{}", value, unit))', 'Some(self::verif_request::record_timeout(value, unit))', 1)]
+for nm, b in (("subsecond_units", "secs < 131_072, any nanos (units n/u/m and the first S values)"),
+              ("seconds_minutes", "100_000 <= secs < 2^33 (S, M and the first H values)"),
+              ("hours", "2^33 <= secs <= 99_999_999 h (the largest representable timeout), incl. everything beyond 2^64 ns")):
+    H("rq_timeout_" + nm, ["C09"], "core", *RQ, cap_s=1500, rewrites=RQ_REWRITE,
+      stubs=["in the scratch copy the call format!(\"{}{}\", value, unit) inside duration_to_grpc_timeout is textually replaced by a "
+             "recorder of (value, unit); decimal rendering by core::fmt is trusted"],
+      obligation="G1: duration_to_grpc_timeout: the (value, unit) it writes has value <= 99_999_999 (8 digits) and equals the reference "
+                 "(floor(requested/unit) for the most precise of n,u,m,S,M,H that fits) - which is what 'never longer than requested, less "
+                 "than one unit lost' means; the floor-division identities themselves are arithmetic facts, not solver obligations",
+      functions=["tonic::request::duration_to_grpc_timeout", "duration_to_grpc_timeout::try_format + 6 closures",
+                 "core::time::Duration::{as_nanos,as_micros,as_millis,as_secs}"],
+      bounds="all Durations with " + b,
+      outside=["durations above 99_999_999 hours (documented expect() panic)"])
 
 
 def select(pid, tier, seed=0):
